@@ -45,6 +45,7 @@ structure Info where
   elseif : Bool
   label : Option String
   endDo : Bool := true      -- `Loop.has_end_do`
+  name : Option String := none   -- the construct name of a `Conditional` (for an `ELSE IF` branch: the one handed down in `kwargs`)
 deriving DecidableEq, Repr
 
 inductive Node where
@@ -225,9 +226,20 @@ def lineAt (ls : Lines) (k : Nat) : Res :=
   | some l => .some [l]
   | none => .err "indexerror"
 
-/-- the last line that is `ELSE` up to case, blanks and a trailing comment (`elseline[-1]`) -/
-def elseLine (ls : Lines) : Res :=
-  match (ls.filter fun s => strip (upper (String.ofList (s.toList.takeWhile (· ≠ '!')))) = "ELSE").getLast? with
+/-- `s.split()`: the blank-separated words -/
+def wordsL : List Char → List Char → List (List Char)
+  | acc, [] => if acc.isEmpty then [] else [acc.reverse]
+  | acc, c :: cs => if isWs c then (if acc.isEmpty then wordsL [] cs else acc.reverse :: wordsL [] cs) else wordsL (c :: acc) cs
+
+/-- `s.upper().split('!', maxsplit=1)[0].split()` -/
+def stmtWords (s : String) : List (List Char) := wordsL [] ((s.toList.takeWhile (· ≠ '!')).map Char.toUpper)
+
+/-- the last line that is the statement `ELSE`, optionally followed by the name of this construct (`elseline[-1]`) -/
+def elseLine (ls : Lines) (name : Option String) : Res :=
+  let ok := fun (s : String) =>
+    let w := stmtWords s
+    w == ["ELSE".toList] || (match name with | some n => w == ["ELSE".toList, (upper n).toList] | none => false)
+  match (ls.filter ok).getLast? with
   | some l => .some [l]
   | none => .err "indexerror"
 
@@ -284,7 +296,7 @@ def recover (info : Info) (s : Src) (elsEmpty : Bool) (Bv Ev : Res) : Res :=
     let header := lineAt s.text 0
     if info.elseif then joinRes [header, Bv, Ev]
     else
-      let elsePart := if elsEmpty then [Ev] else [elseLine s.text, Ev]
+      let elsePart := if elsEmpty then [Ev] else [elseLine s.text info.name, Ev]
       joinRes (header :: Bv :: (elsePart ++ [lineAt s.text (s.l1 - s.l0)]))
 
 /-- one level of the conservative visitor: `B d' ie'` / `E d' ie'` are the visits of `o.body` / `o.else_body` at depth `d'`
